@@ -191,6 +191,8 @@ def case_coq(d, o):
     k = d["kind"]
     if "err" in o and not (k == "fit" and o.get("noconv")):
         return None
+    if d.get("nok"):
+        return None      # long record, oracle only (keeps the kernel evaluation affordable)
     if k == "lwr":
         r, a, s = arr(d["r"]), arr(o["a"]).reshape(o["shape"]), arr(o["sigma"])
         if not all_finite(a, s):
@@ -287,6 +289,22 @@ def yw_check(key, r, a, sigma, what=""):
     return None
 
 
+def lagged_mean(x, y, nl):
+    """the defining lagged average R(k)[i, j] = mean_t x_i(t + k) y_j(t), k < nl, computed here
+       (not by the implementation); integer-valued data give exact integer sums. Layout [k][i][j]"""
+    N = x.shape[1]
+    if np.all(x == np.round(x)) and np.all(y == np.round(y)) and max(np.abs(x).max(), np.abs(y).max()) < 2 ** 20:
+        xi, yi = x.astype(np.int64), y.astype(np.int64)
+        return [[[Fraction(int(np.dot(xi[i, k:], yi[j, :N - k])), N - k) for j in range(y.shape[0])]
+                 for i in range(x.shape[0])] for k in range(nl)]
+    return [[[Fraction(float(np.dot(x[i, k:], y[j, :N - k]))) / (N - k) for j in range(y.shape[0])]
+             for i in range(x.shape[0])] for k in range(nl)]
+
+
+def lagged_mean_f(x, nl):
+    return np.array([[[float(v) for v in row] for row in m] for m in lagged_mean(x, x, nl)])
+
+
 def oracle(d, o):
     k = d["kind"]
     key = "C11/" + {"lwr": "lwr_recursion", "ld": "AR_est_LD", "cov": "crosscov_vector", "mar": "MAR_est_LWR",
@@ -335,11 +353,16 @@ def oracle(d, o):
         if o["shape"] != [nc, y.shape[0], nl]:
             return Fail(key + "/shape", "result shape %s" % o["shape"], o["shape"], [nc, y.shape[0], nl])
         rxy = arr(o["rxy"]).reshape(o["shape"])
-        X, Y = fr_mat(x), fr_mat(y)
+        if N > 200:
+            W = lagged_mean(x, y, nl)
+        else:
+            X, Y = fr_mat(x), fr_mat(y)
+            W = [[[sum(X[i][t + kk] * Y[j][t] for t in range(N - kk)) / (N - kk) for j in range(y.shape[0])]
+                  for i in range(nc)] for kk in range(nl)]
         for i in range(nc):
             for j in range(y.shape[0]):
                 for kk in range(nl):
-                    want = sum(X[i][t + kk] * Y[j][t] for t in range(N - kk)) / (N - kk)
+                    want = W[kk][i][j]
                     got = rxy[i, j, kk]
                     if not np.isfinite(got) or abs(F(got) - want) > Fraction(1e-11) * (1 + abs(want)):
                         return Fail(key + "/lagged-mean", "rxy[%d,%d,%d] differs from the lagged average" % (i, j, kk),
@@ -351,9 +374,8 @@ def oracle(d, o):
         if len(a) != d["order"]:
             return Fail(key + "/order", "MAR_est_LWR(x, %d) returned %d coefficient matrices" % (d["order"], len(a)),
                         len(a), d["order"])
-        import nitime.utils as ut
-        R = ut.autocov_vector(x, nlags=d["order"] + 1).transpose(2, 0, 1)
-        return yw_check(key, R, a, e)
+        R = lagged_mean_f(x, d["order"] + 1)
+        return yw_check(key, R, a, e, what="(against the data's lagged averages) ")
     if k == "fit":
         if "err" in o:
             return None   # "did not converge": no solution is reported, nothing is claimed
@@ -370,17 +392,27 @@ def oracle(d, o):
             return Fail(key + "/order", "reported order %d but %d covariance lags returned" % (order, Rxx.shape[2]),
                         Rxx.shape[2], order + 1)
         x = np.vstack([arr(d["x1"]), arr(d["x2"])])
-        import nitime.utils as ut
-        R = ut.autocov_vector(x, nlags=order + 1)
-        if np.abs(R - Rxx).max() > 1e-12 * (1 + np.abs(R).max()):
-            return Fail(key + "/Rxx", "returned covariance is not the autocovariance of the data at order+1 lags", None, None)
-        return yw_check(key, Rxx.transpose(2, 0, 1), coef, ecov)
+        R = lagged_mean_f(x, order + 1)
+        dev = np.abs(R - Rxx.transpose(2, 0, 1)).max()
+        if dev > 1e-10 * (1 + np.abs(R).max()):
+            return Fail(key + "/Rxx", "returned covariance is not the lagged average of the data at order+1 lags (dev %.3e)" % dev,
+                        float(dev), 0)
+        return yw_check(key, R, coef, ecov, what="(against the data's lagged averages) ")
     if k == "gen":
         a = arr(d["a"]).reshape(d["a_shape"])
         nc, N = a.shape[1], d["N"]
         if o["mar_shape"] != [nc, N] or o["nz_shape"] != [nc, N]:
             return Fail(key + "/shape", "output shapes %s %s" % (o["mar_shape"], o["nz_shape"]), o["mar_shape"], [nc, N])
         mar, nz = arr(o["mar"]).reshape(nc, N), arr(o["nz"]).reshape(nc, N)
+        if N > 64:      # long record: the same recursion in float64 with a tolerance
+            for t in range(N):
+                acc = mar[:, t].copy()
+                for j in range(1, min(t, len(a)) + 1):
+                    acc += a[j - 1] @ mar[:, t - j]
+                if np.abs(acc - nz[:, t]).max() > 1e-9 * (1 + np.abs(mar[:, max(0, t - len(a)):t + 1]).max()):
+                    return Fail(key + "/recursion", "X(t) + sum_j a(j) X(t-j) differs from the returned noise at t=%d" % t,
+                                hexl(acc), hexl(nz[:, t]))
+            return None
         A = [fr_mat(m) for m in a]
         X = [[F(mar[i, t]) for i in range(nc)] for t in range(N)]
         E = [[F(nz[i, t]) for i in range(nc)] for t in range(N)]
@@ -548,6 +580,73 @@ def gen_cov(ctx, rs):
     return {"kind": "cov", "auto": False, "x": hexl(x), "y": hexl(y), "nlags": nl}
 
 
+# record lengths beyond every power-of-two / block boundary up to the quantifier's 4096
+LONG_N = [513, 777, 1021, 1024, 1025, 1500, 2047, 2048, 2049, 3000, 3001, 4093, 4095, 4096]
+LONG_N_K = [1025, 1500, 2049, 3001, 4096]       # the ones that also go through K
+
+
+def long_n(rs, in_k):
+    return int(rs.choice(LONG_N_K if in_k else LONG_N))
+
+
+def int_coloured(rs, nc, N):
+    """integer-valued coloured data (exact integer lagged sums)"""
+    B = stable_var(rs, nc, int(rs.randint(1, 3)), rs.uniform(0.3, 0.8))
+    x = simulate(rs, B, rand_cov(rs, nc), N, burn=50)
+    return np.round(4 * x)
+
+
+def gen_cov_long(ctx, rs, in_k):
+    nc = int(rs.randint(1, 4))
+    N = long_n(rs, in_k)
+    nl = int(rs.randint(1, 5))
+    x = int_coloured(rs, nc, N)
+    d = {"kind": "cov", "auto": bool(rs.rand() < 0.5), "x": hexl(x), "nlags": nl, "long": True}
+    if not d["auto"]:
+        d["y"] = hexl(int_coloured(rs, nc, N))
+    if not in_k:
+        d["nok"] = True
+    return d
+
+
+def gen_mar_long(ctx, rs, in_k):
+    nc = int(rs.randint(1, 4))
+    d = {"kind": "mar", "x": hexl(int_coloured(rs, nc, long_n(rs, in_k))), "order": int(rs.randint(1, 4)),
+         "long": True}
+    if not in_k:
+        d["nok"] = True
+    return d
+
+
+def gen_fit_long(ctx, rs, in_k):
+    x = int_coloured(rs, 2, long_n(rs, in_k))
+    d = {"kind": "fit", "x1": hexl(x[0]), "x2": hexl(x[1]), "order": None, "max_order": 4, "criterion": "default",
+         "long": True}
+    if in_k or rs.rand() < 0.6:
+        d["order"] = int(rs.randint(1, 4))
+    if not in_k:
+        d["nok"] = True
+    return d
+
+
+def gen_gen_long(ctx, rs, in_k):
+    nc = int(rs.randint(1, 4))
+    order = int(rs.randint(1, 4))
+    a = grid(-stable_var(rs, nc, order, rs.uniform(0.3, 0.9)), 6)
+    return {"kind": "gen", "a": hexl(a), "a_shape": [order, nc, nc], "cov": hexl(rand_cov(rs, nc)),
+            "N": int(rs.choice([1025, 1500, 2049])), "np_seed": int(rs.randint(0, 2 ** 31 - 1)), "nok": True, "long": True}
+
+
+def long_calls(ctx, rs):
+    """every run: records longer than any block / power-of-two boundary, mostly oracle-only,
+       a few also through the kernel-evaluated correspondence"""
+    out = []
+    for g, n_k, n_o in [(gen_cov_long, ctx.scale(6, 12), ctx.scale(12, 40)), (gen_mar_long, ctx.scale(3, 6), ctx.scale(6, 20)),
+                        (gen_fit_long, ctx.scale(2, 4), ctx.scale(6, 20)), (gen_gen_long, 0, ctx.scale(2, 6))]:
+        out += [g(ctx, rs, True) for _ in range(n_k)] + [g(ctx, rs, False) for _ in range(n_o)]
+    return out
+
+
 def coloured(rs, nc, N, bits=8):
     B = stable_var(rs, nc, int(rs.randint(1, 3)), rs.uniform(0.3, 0.8))
     x = simulate(rs, B, rand_cov(rs, nc), N, burn=50)
@@ -601,6 +700,14 @@ def gen_crit(ctx, rs):
 
 
 def klass(d):
+    c = klass0(d)
+    if d.get("long"):
+        N = len((d.get("x") or [d.get("x1")])[0]) if d["kind"] != "gen" else d["N"]
+        c += "/long-N%s%s" % (">2048" if N > 2048 else (">1024" if N > 1024 else "<=1024"), "" if not d.get("nok") else "/oracle-only")
+    return c
+
+
+def klass0(d):
     k = d["kind"]
     if k == "lwr":
         r = arr(d["r"])
@@ -645,6 +752,7 @@ def run(ctx):
     calls = corpus_calls()
     for g, n in plan:
         calls += [g(ctx, rs) for _ in range(n)]
+    calls += long_calls(ctx, rs)
     cases = [make_case(d) for d in calls]
     kcases = [c for c in cases if c.in_k]
     # heavy cases first so that the parallel shards are balanced
@@ -669,7 +777,10 @@ def run(ctx):
                          "estimated from simulated coloured data of length 64..4096, on a 2^-12 grid, block-Toeplitz "
                          "positive definite) x nc 1..4(6) x P 0..5(8) x channel permutations; free sequences with symmetric "
                          "r(0); crosscov/autocov on random data; MAR_est_LWR and fit_model (fixed order, BIC/AIC/scripted "
-                         "criteria, max_order 0..10) on bivariate coloured data; generate_mar with seeded noise; criteria. "
+                         "criteria, max_order 0..10) on bivariate coloured data; generate_mar with seeded noise; criteria; "
+                         "in every run integer-valued long records N in {513..4096, incl. 1025, 2049, primes} through "
+                         "crosscov/autocov, MAR_est_LWR, fit_model, generate_mar (exact integer lagged sums as oracle; a few "
+                         "also in K). "
                          "non-trivial = the call returned a value")
     return ctx.finish(
         trusted=["numpy/scipy kernels used by the anchored code (dot, linalg.inv, linalg.det, log, mean, "
